@@ -1090,13 +1090,21 @@ def concat(objs, dim, **kw):
         raise ValueError("must supply at least one object to concatenate")
     if isinstance(objs[0], DS):
         return ds_concat(objs, dim)
+    # xarray: common dims in order of first appearance over all objects; the concat dim is
+    # prepended only when no object has it
+    common = []
+    for o in objs:
+        for d in o.dims:
+            if d not in common:
+                common.append(d)
+    if dim not in common:
+        common = [dim] + common
+    dims = tuple(common)
     parts = []
     for o in objs:
         if dim not in o.dims:
             o = o.expand_dims(dim)
-        parts.append(o)
-    dims = parts[0].dims
-    parts = [p if p.dims == dims else p.transpose(*dims) for p in parts]
+        parts.append(o if o.dims == dims else o.transpose(*dims))
     ax = dims.index(dim)
     for p in parts[1:]:
         for d in dims:
